@@ -16,7 +16,7 @@ EXPLANATION = ("Decided from MIR: (R1) ContentPackCreator::detect_compression re
                "CachedContentAdder::cache_content calls the wrapped adder only on the Vacant arm, inserts and returns its result, returns "
                "the stored address on the Occupied arm, and the key is the Blake3 of the whole content (input rewound afterwards). The entropy "
                "threshold and hash collisions are not decided."
-               ' Added later: (R5) compressor workers only build WriteTask::Compressed; (R6) the configured Compression reaches the cluster writer and the routing decision unchanged.')
+               ' Added later: (R5) compressor workers only build WriteTask::Compressed; (R6) the configured Compression reaches the cluster writer and the routing decision unchanged. (R4) the cache key is the hash alone.')
 ASSUMPTIONS = ["Blake3 collision resistance", "HashMap entry API semantics", "rustc MIR construction and trait resolution"]
 
 
@@ -283,6 +283,10 @@ def r4_dedup(cx):
     get = b.calls(r"OccupiedEntry::<.*>::get$|OccupiedEntry<.*>::get$")
     ok = len(en) == 1 and len(ad) == 1 and len(ins) == 1 and len(get) == 1 and ("param", 2) in b.origins(en[0][1]["args"][1])
     cx.ob("R4", "R4/anchors", ok, f, "cache_content: one entry(hash), one add_content, one insert, one get")
+    if ok:
+        # identical contents share one address whatever else differs between the two insertions: the key is the hash alone
+        others = sorted({o[1] for o in b.origins(en[0][1]["args"][1]) if o[0] == "param" and o[1] not in (1, 2)})
+        cx.ob("R4", "R4/key-is-the-hash-alone", not others, f, "the cache key derives from the content hash and from no other argument of the insertion (other parameters in the key: %s)" % others, ln=en[0][1].get("ln"))
     if ok:
         s, arms = c01._variant_arms(F, b, r"hash_map::Entry<")
         if s is None:
